@@ -17,15 +17,13 @@ i.e. `Indent` immediately follows each opener, `Dedent` precedes its closer with
 newline markers in between, groups nest in bracket order.  Separator definitions of JoinAttr /
 ElisionJoinAttr must not contain any opener / closer / indent / dedent.
 -/
-import CalmVerif.Model.Unparse
+import CalmVerif.Model.UnparseAux
 namespace CalmVerif.Unparse
 open CalmVerif
 
 inductive Sym where
   | opener | caseOpener | closer | indent | dedent | nl | other
   deriving DecidableEq, Repr
-
-def caseKinds : List String := ["Case", "Default"]
 
 /-- the structural symbol of a non-nesting rule in the definition of `kind` -/
 def symOf (kind : String) : Rule → Sym
